@@ -225,6 +225,33 @@ theorem flushC_of_bounds (d : Disp γ) (inp : Bytes) (c : Nat) (h1 : d.rcs ≤ c
   unfold flushC checkedSlice
   rw [if_pos ⟨h1, h2⟩]
 
+/-- one `write`: given that the guarded parse is the real one and that a successful parse leaves the watermark
+valid -/
+theorem stream_writeG_eq_core (s : Stream γ) (data : Bytes)
+    (hp : Parser.parse (guardEnv w) (s.pending ++ data) false s.parser =
+      Parser.parse w.env (s.pending ++ data) false s.parser)
+    (hb : ∀ consumed, (Parser.parse w.env (s.pending ++ data) false s.parser).2 = .ok consumed →
+      (Parser.parse w.env (s.pending ++ data) false s.parser).1.x.sink.rcs ≤ consumed ∧
+      consumed ≤ (s.pending ++ data).length) :
+    s.writeG w data = s.write w data := by
+  unfold Stream.writeG Stream.write
+  cases hcf : s.chunkFor w data with
+  | inl s' => rfl
+  | inr sc =>
+    obtain ⟨s1, chunk⟩ := sc
+    obtain ⟨c1, c2, c3, c4, c5⟩ := Stream.chunkFor_inr hcf
+    dsimp only
+    rw [← c1, ← c2] at hp hb
+    rw [hp]
+    cases hpr : (s1.parser.parse w.env chunk false).2 with
+    | error e => rfl
+    | ok consumed =>
+      obtain ⟨p1, p2⟩ := hb consumed hpr
+      dsimp only at p1 p2 ⊢
+      have e := flushC_of_bounds (Stream.disp { s1 with parser := (Parser.parse w.env chunk false s1.parser).1 }) chunk consumed p1 p2
+      rw [e]
+      rfl
+
 /-- one `write`: given that the guarded parse is the real one -/
 theorem stream_writeG_eq (hc : CtlClean w.ctl) (hw : Wf w.tbl) (s : Stream γ) (data : Bytes) (hs : SInv w s)
     (hp : Parser.parse (guardEnv w) (s.pending ++ data) false s.parser =
